@@ -290,7 +290,7 @@ def spell_version(rng, canonical_only=False) -> str:
     if rng.random() < 0.15:
         s += f"{rng.randint(0, 2)}!"
     if not canonical_only and rng.random() < 0.1:
-        s = "v" + s
+        s = rng.choice("vV") + s
     s += ".".join(map(str, rel))
     if rng.random() < 0.3:
         sep = "" if canonical_only else rng.choice(["", ".", "-", "_"])
@@ -313,7 +313,7 @@ def spell_clause(rng) -> str:
     if r < 0.12:
         rel = ".".join(str(rng.choice([0, 1, 2, 10])) for _ in range(rng.randint(1, 4)))
         ep = f"{rng.randint(1, 2)}!" if rng.random() < 0.15 else ""
-        vpre = "v" if rng.random() < 0.1 else ""
+        vpre = rng.choice("vV") if rng.random() < 0.1 else ""
         return rng.choice(["==", "!="]) + sp() + vpre + ep + rel + ".*"
     if r < 0.24:
         while True:
@@ -321,6 +321,25 @@ def spell_clause(rng) -> str:
             if len(Version(v).release) >= 2:
                 return "~=" + sp() + v
     return rng.choice([">", ">=", "<", "<=", "==", "!="]) + sp() + spell_version(rng)
+
+
+def spelling_grid() -> list[str]:
+    """Deterministic layer (seed C17k: an upper-case `V` prefix on a wildcard): packaging's specifier grammar is
+    case-insensitive and allows a `v` prefix, an epoch and several spellings of each suffix on EVERY operator form;
+    every combination of operator form x prefix x epoch x release x suffix spelling, whatever the random stream does."""
+    out = []
+    sufs = ["", "RC1", "Rc1", "a1", "A1", ".POST1", ".Post1", ".DEV1", ".Dev2", "ALPHA1", "Beta2", "PREVIEW3", "C4", "-R5", "_REV6",
+            "rc1.POST2.DEV3"]
+    for op in ["==", "!=", "~=", ">=", "<=", "<", ">", "==*", "!=*"]:
+        for pre in ["", "v", "V"]:
+            for ep in ["", "1!"]:
+                for rel in ["1", "1.0", "2.3.4"]:
+                    for suf in sufs:
+                        if op.endswith("*"):
+                            out.append(op[:2] + pre + ep + rel + suf + ".*")
+                        else:
+                            out.append(op + pre + ep + rel + suf)
+    return out
 
 
 def near_miss(rng) -> str:
@@ -381,6 +400,8 @@ def run_c17(run: core.Run, n: int) -> None:
                 # more `||` alternatives than the interpreter's recursion limit (seed C17i: a recursive fold), valid and not
                 "||".join(f">={i}.5" for i in range(1200, 0, -1)), "||".join(f"!={i}" for i in range(1100)) + "||>=x",
                 "%3E%3D1.0", ">=1.0%s", ">=%(min)s,<%(max)s", "100%", ">=1.0||<2%s", "{}", ">=1.0{0}", ">=1\x00"]
+    specials += spelling_grid()
+    run.extra["spelling_grid"] = len(spelling_grid())
     for i in range(n + len(specials)):
         if i < len(specials):
             text = specials[i]
